@@ -57,12 +57,14 @@ E2_META = {
 
 OTHER_RULES = {
     "C10": [
-        ("with-shadows-lexical-binders", lambda s, d: "with" in s.split("|")[1]),
+        ("scope-chain-lost-behind-wrapper", lambda s, d: "with" in s.split("|")[1] and any(w in s for w in ("paren", "assert", "lam_other", "unapplied"))),
+        ("let-around-call-not-visible-under-with", lambda s, d: "with" in s.split("|")[1]),
         ("inherit-in-rec-set-reported-cyclic", lambda s, d: "rec_inherit_a" in s),
         ("chain-link-resolved-in-inner-scope", lambda s, d: "let_a_is_z" in s),
     ],
     "C11": [
-        ("with-shadows-lexical-binders", lambda s, d: "with" in s.split("|")[2]),
+        ("scope-chain-lost-behind-wrapper", lambda s, d: "with" in s.split("|")[2] and any(w in s for w in ("paren", "assert", "lam_other", "unapplied"))),
+        ("cli-outer-with-member-rewritten-instead-of-rec-binder", lambda s, d: "with" in s.split("|")[2]),
         ("lambda-argument-not-writable", lambda s, d: "lam_arg" in s),
         ("cli-sibling-and-outer-scope-fallbacks", lambda s, d: True),
     ],
@@ -85,6 +87,7 @@ OTHER_RULES = {
     ],
 }
 OTHER_META = {
+    "scope-chain-lost-behind-wrapper": ("an enclosing let / formal is not part of the scope chain once parentheses, an assert or a lambda head stands between it and a `with`: the with member is returned (or rewritten) although an outer lexical binder (or an unapplied formal) binds the name", "source_code.py:_resolve_target_set / resolution.py:attach_resolution_context do not carry the inherited chain through Parenthesis / Assertion / FunctionDefinition, and unapplied formals are not represented as a scope at all"),
     "with-shadows-lexical-binders": ("a `with` environment is consulted before enclosing let / rec / formal binders", "resolution.py:scopes_for_owner appends the with-environment scope after the lexical scopes and identifier.py:_resolve_identifier searches innermost-last, so `with` wins over every lexical binder outside it"),
     "inherit-in-rec-set-reported-cyclic": ("`rec { inherit a; }` reached through the document reports a cyclic inherit instead of the enclosing binding", "set.py:AttributeSet.__getitem__ builds the chain scopes_for_owner(self)+[self] and for a rec set scopes_for_owner already contains the set itself, so the inherit finds itself"),
     "chain-link-resolved-in-inner-scope": ("the next link of a reference chain is looked up from a scope that is further in than the binding holding it (a rec set between them): `let a = z; in let z = 2; in rec { … x = a; }` resolves to 2 although z is not in scope of `a = z`", "resolution.py:scopes_for_owner re-attaches the whole accumulated chain to the rec set's scope, and identifier.py:_resolve_binding then continues from there"),
